@@ -27,6 +27,7 @@ pub enum Which {
     C13,
     C14,
     C15,
+    C16,
     C17,
     C19,
     C25,
@@ -46,6 +47,7 @@ impl Which {
             Which::C13 => "C13",
             Which::C14 => "C14",
             Which::C15 => "C15",
+            Which::C16 => "C16",
             Which::C17 => "C17",
             Which::C19 => "C19",
             Which::C25 => "C25",
@@ -120,6 +122,7 @@ impl Which {
             Which::C25 => {
                 o.builtin = 40;
             }
+            Which::C16 => {}
             Which::C19 => {
                 o.clone_only_loc = true;
                 o.builtin = 70;
@@ -141,6 +144,7 @@ impl Which {
             Which::C13 => "G-full grammars heavy in user macros (1-2 parameters, conditions == != ~~ !~), nested macro uses, repetitions of groups and macros, `? * +`; oracle: model expansion by substitution into fresh nonterminals -> same accept/reject and same rendered value (Vec in input order, Option, tuples). Non-trivial = grammar with >= 2 distinct instantiations of one macro or a condition that removed an alternative, input accepted; distinct (grammar, config, start, input)",
             Which::C17 => "grammars with `=>?` actions (plain, inlined, in start productions) x sentences whose tokens carry poison flags (fallible actions return User / a non-User ParseError when they see one) x Err items injected at any stream index x all 6 configs; oracle: model timeline (token i pulled at 2i, node [a,b) reduced at 2b+1): exact error, exact action log up to the failure, exact number of token pulls. Non-trivial = a failing action that is not the last reduction, or a stream error; distinct (grammar, config, start, input, poison, error index)",
             Which::C14 => "metamorphic pairs (G, G with a random non-empty subset of its non-pub non-recursive nonterminals / macro definitions marked #[inline], incl. nested inlining, several occurrences per alternative, several different inlined nonterminals per alternative, empty and fallible inlined productions), both accepted by LALRPOP, x 6 configs x inputs (sentences, mutations, random, short exhaustive, poisoned tokens that make fallible actions fail); oracle: same Ok rendering / same error (variant, token, span, user error) on every input, and the action log of G-inline equals the model's prediction (inlined actions left to right, inner first, immediately before the host action). Non-trivial = input whose derivation runs >= 1 inlined user action (sub-classes counted: >= 2 different inlined nonterminals in one host reduction, the same one repeated in one host); distinct (pair, config, start, input)",
+            Which::C16 => "table-driven grammars with `!` at several depths (statement lists `*`/`+`, recover-to-terminator, `!` after a prefix, bracketed `!`, bare `!`; roles of the six tokens permuted) x {lane, LR(1), LALR} x sentences of the `!`-free grammar with 0-3 token insertions / deletions / substitutions, plus random strings; oracle (validity predicate on every Ok result): the rendered tree is a derivation with `!` read as a terminal, token leaves are an ordered subsequence of the input, every other input token lies in exactly one error node's span, error spans ordered and disjoint, dropped_tokens are input tokens in order; sentences of the `!`-free grammar parse without any error node to the model's value. Non-trivial = Ok result with >= 1 error node covering >= 1 input token; distinct (grammar, config, input)",
             Which::C15 => "G-full grammars decorated with #[cfg(..)] (nested not/all/any, 1-2 attributes per item) on alternatives, extra gated alternatives, gated nonterminals and gated extern conversions x a feature set over {f1, x-y, abc, z9} given with --features; oracle: the model evaluates the predicates and (1) LALRPOP's verdict and (2) the generated .rs after the two header lines are identical to those for the grammar printed with the inactive items deleted, (3) compiled parsers accept the language and return the values of the deleted grammar. Non-trivial = grammar with >= 1 deleted and >= 1 kept gated item; distinct (grammar text, feature set[, config, input])",
             Which::C25 => "metamorphic pairs (G, G with nonterminals, macro names, macro parameters, bindings, the grammar parameter and its lifetime renamed injectively into an adversarial pool: __0 __sym0 __lookahead __tokens __Symbol __StateMachine __action0 Token alloc core v e ...); oracle: same LALRPOP verdict, same compile result, identical answers (value / error / expected list / token pulls / action log) on every input. Non-trivial = pair with >= 1 new name starting with `__`; distinct (pair, config, start, input)",
             Which::C19 => "G-full grammars (annotated + inferred types: tuples, Vec/Option from repeats and macros, payload tokens, usize / Copy newtype / Clone-only newtype locations, both lexers) x both code generators: every unit LALRPOP accepts must compile (cargo build of the batch, rustc diagnostics attributed to modules through macro expansion chains). Non-trivial = accepted unit whose grammar has an inferred nonterminal type that is a tuple / Vec / Option, or a non-usize location type; distinct (grammar text, config)",
@@ -182,7 +186,10 @@ struct GramCase {
 fn variants(which: Which, quick: bool) -> Vec<(Algo, bool)> {
     let all: Vec<(Algo, bool)> =
         Algo::ALL.iter().flat_map(|a| [(*a, false), (*a, true)]).collect();
-    let _ = (which, quick);
+    let _ = quick;
+    if which == Which::C16 {
+        return Algo::ALL.iter().map(|a| (*a, false)).collect();
+    }
     all
 }
 
@@ -202,6 +209,7 @@ fn build_cases(tape: &[u8], which: Which, n_inputs_scale: usize) -> Vec<Result<G
     let mut t = Tape::new(tape);
     let spec = match which {
         Which::C12 => gen::gen_prec(&mut t),
+        Which::C16 => gen::gen_recovery(&mut t),
         _ => gen::gen_full(&mut t, &opts),
     };
     match which {
@@ -341,10 +349,39 @@ fn case_from_spec(
         }
         let (n_sent, n_rand, exh) = match which {
             Which::C02 | Which::C06 | Which::C13 => (8 * n_inputs_scale, n_inputs_scale, 2),
+            Which::C16 => (8 * n_inputs_scale, 2 * n_inputs_scale, 2),
             Which::C19 => (2, 1, 1),
             _ => (3 * n_inputs_scale, 3 * n_inputs_scale, 3),
         };
-        let ins = gen::gen_inputs(&mut t, &core, *s, &usable, n_sent, n_rand, exh, 12);
+        let mut ins = gen::gen_inputs(&mut t, &core, *s, &usable, n_sent, n_rand, exh, 12);
+        if which == Which::C16 {
+            // up to three edits of a sentence
+            let base: Vec<Vec<usize>> = ins.iter().filter(|x| x.len() >= 2).cloned().collect();
+            for b in base.iter().take(40) {
+                let mut m = b.clone();
+                let edits = 1 + t.below(3);
+                for _ in 0..edits {
+                    match t.below(3) {
+                        0 if !m.is_empty() => {
+                            let p = t.below(m.len());
+                            m.remove(p);
+                        }
+                        1 => {
+                            let p = t.below(m.len() + 1);
+                            m.insert(p, usable[t.below(usable.len())]);
+                        }
+                        _ if !m.is_empty() => {
+                            let p = t.below(m.len());
+                            m[p] = usable[t.below(usable.len())];
+                        }
+                        _ => {}
+                    }
+                }
+                ins.push(m);
+            }
+            ins.sort();
+            ins.dedup();
+        }
         for inp in ins {
             if spec.lexer == Lexer::Builtin {
                 let (text, toks) = gen::builtin_text(&mut t, &spec, &term_of_core, &inp);
@@ -911,6 +948,33 @@ fn evaluate_cases(
                   }
                 }
                 Which::C19 => {}
+                Which::C16 => {
+                    let Resp::Ok { val, .. } = r else {
+                        if count {
+                            ck.class("c16_results_err(no claim)");
+                        }
+                        continue;
+                    };
+                    match c16_validate(c, val, toks, m) {
+                        Ok((error_nodes, covered)) => {
+                            if count {
+                                if error_nodes >= 1 && covered >= 1 {
+                                    ck.nontrivial(&key);
+                                    ck.class("c16_ok_with_recovery");
+                                } else if error_nodes >= 1 {
+                                    ck.class("c16_ok_with_empty_error_node");
+                                } else {
+                                    ck.class("c16_ok_without_recovery");
+                                }
+                            }
+                        }
+                        Err((kind, msg)) => fails[*gi].push(Fail {
+                            sig: format!("C16/{}/{}", kind, vars[vi].0.name()),
+                            what: format!("{}: {} (result `{}`)", cfg_name(vi), msg, val),
+                            replay: mk_replay(vi, json!({"violated": kind}), r),
+                        }),
+                    }
+                }
                 Which::C17 => {
                     // model timeline (A.6b): the first event among the stream
                     // error and the first failing action decides the result
@@ -1796,4 +1860,150 @@ pub fn run_c27(ctx: Ctx, replay: Option<PathBuf>) -> i32 {
         }
     }
     ck.finish()
+}
+
+
+// ------------------------------------------------------------------ C16
+
+/// Validity predicate of C16 on an Ok result. Returns (error nodes, input
+/// tokens covered by error nodes) or (kind, message).
+fn c16_validate(c: &GramCase, val: &str, toks: &[InTok], m: &ModelOut) -> Result<(usize, usize), (&'static str, String)> {
+    use crate::gspec::{RepOp, SymKind};
+    use crate::rtree::RT;
+    let Some(tree) = crate::rtree::parse(val) else {
+        return Err(("unparsable-result", "the result is not a rendering of a tree".into()));
+    };
+    // (1) derivation of the grammar with `!` read as a terminal
+    struct Walk<'a> {
+        c: &'a GramCase,
+        leaves: Vec<(char, u32)>,
+        spans: Vec<(usize, usize)>,
+        dropped: Vec<Vec<(usize, char, u32, usize)>>,
+    }
+    fn nt_of_name(name: &str) -> Option<(usize, usize)> {
+        let k: usize = name.strip_prefix("N_")?.parse().ok()?;
+        Some((k / 32, k % 32))
+    }
+    impl<'a> Walk<'a> {
+        fn node(&mut self, t: &RT, want_nt: usize) -> Result<(), String> {
+            let RT::Node(name, args) = t else { return Err(format!("expected a node of `{}`, found {t:?}", self.c.spec.nts[want_nt].name)) };
+            let Some((ni, ai)) = nt_of_name(name) else { return Err(format!("unknown node name {name}")) };
+            if ni != want_nt {
+                return Err(format!("node {name} belongs to `{}` where `{}` is required", self.c.spec.nts.get(ni).map(|n| n.name.as_str()).unwrap_or("?"), self.c.spec.nts[want_nt].name));
+            }
+            let Some(alt) = self.c.spec.nts[ni].alts.get(ai) else { return Err(format!("node {name}: no such alternative")) };
+            if alt.syms.len() != args.len() {
+                return Err(format!("node {name} has {} children, its alternative has {} symbols", args.len(), alt.syms.len()));
+            }
+            let mut i = 0;
+            while i < args.len() {
+                match (&alt.syms[i].kind, &args[i]) {
+                    (SymKind::T(ti), RT::Tok { kind, idx }) => {
+                        let want = crate::gen::EXTERN_NAMES[self.c.spec.terms[*ti].kind as usize].chars().next().unwrap();
+                        if *kind != want {
+                            return Err(format!("node {name}: child {i} is token `{kind}{idx}` where terminal `{want}` is required"));
+                        }
+                        self.leaves.push((*kind, *idx));
+                    }
+                    (SymKind::N(n), a) => self.node(a, *n)?,
+                    (SymKind::Rep(inner, op), RT::List(items)) => {
+                        let SymKind::N(n) = &**inner else { return Err("unsupported repeat".into()) };
+                        if *op == RepOp::Plus && items.is_empty() {
+                            return Err(format!("node {name}: `+` list is empty"));
+                        }
+                        for it in items {
+                            self.node(it, *n)?;
+                        }
+                    }
+                    (SymKind::L, RT::Loc(l)) => {
+                        // `@L ! @R`
+                        if let (Some(SymKind::Err), Some(SymKind::R)) = (alt.syms.get(i + 1).map(|s| &s.kind), alt.syms.get(i + 2).map(|s| &s.kind)) {
+                            let (Some(RT::Recov { dropped, .. }), Some(RT::Loc(r))) = (args.get(i + 1), args.get(i + 2)) else {
+                                return Err(format!("node {name}: error alternative without a recovery value"));
+                            };
+                            self.spans.push((*l, *r));
+                            self.dropped.push(dropped.clone());
+                            i += 2;
+                        }
+                    }
+                    (SymKind::R, RT::Loc(_)) => {}
+                    (k, a) => return Err(format!("node {name}: child {i} is {a:?} where {k:?} is required")),
+                }
+                i += 1;
+            }
+            Ok(())
+        }
+    }
+    let mut w = Walk { c, leaves: vec![], spans: vec![], dropped: vec![] };
+    // the root is the pub symbol S (index 0)
+    w.node(&tree, 0).map_err(|e| ("not-a-derivation", e))?;
+    // (2) leaves are a subsequence of the input, in order
+    let mut last: i64 = -1;
+    let mut is_leaf = vec![false; toks.len()];
+    for (k, idx) in &w.leaves {
+        let i = *idx as usize;
+        if i >= toks.len() || (i as i64) <= last {
+            return Err(("leaves-not-a-subsequence", format!("token leaf {k}{idx} is out of input order")));
+        }
+        let want = crate::gen::EXTERN_NAMES[toks[i].kind as usize].chars().next().unwrap();
+        if want != *k {
+            return Err(("leaves-not-a-subsequence", format!("token leaf {k}{idx} is not input token #{idx} (`{want}`)")));
+        }
+        is_leaf[i] = true;
+        last = i as i64;
+    }
+    // (4) error spans ordered and disjoint
+    for s in &w.spans {
+        if s.0 > s.1 {
+            return Err(("error-span-inverted", format!("error node span {s:?} ends before it starts")));
+        }
+    }
+    for p in w.spans.windows(2) {
+        if p[0].1 > p[1].0 {
+            return Err(("error-spans-overlap-or-unordered", format!("error node spans {:?} and {:?}", p[0], p[1])));
+        }
+    }
+    // (3) every other input token lies inside exactly one error node's span
+    let mut covered = 0usize;
+    for (i, t) in toks.iter().enumerate() {
+        if is_leaf[i] {
+            continue;
+        }
+        let n = w.spans.iter().filter(|s| s.0 <= t.lo && t.hi <= s.1).count();
+        if n != 1 {
+            return Err((
+                "token-unaccounted",
+                format!("input token #{i} ({}..{}) is neither a leaf of the tree nor inside exactly one error node span (spans {:?})", t.lo, t.hi, w.spans),
+            ));
+        }
+        covered += 1;
+    }
+    // (5) dropped_tokens are input tokens in order
+    for d in &w.dropped {
+        let mut last: i64 = -1;
+        for (lo, k, idx, hi) in d {
+            let i = *idx as usize;
+            let ok = i < toks.len()
+                && (i as i64) > last
+                && toks[i].lo == *lo
+                && toks[i].hi == *hi
+                && crate::gen::EXTERN_NAMES[toks[i].kind as usize].starts_with(*k);
+            if !ok {
+                return Err(("dropped-tokens", format!("dropped token {k}{idx} ({lo}..{hi}) is not an input token in order")));
+            }
+            last = i as i64;
+        }
+    }
+    // (6) sentences of the `!`-free grammar parse without recovery, to the model's value
+    if m.member {
+        if !w.spans.is_empty() {
+            return Err(("recovery-on-a-sentence", "the input is derivable without `!` but the result contains an error node".into()));
+        }
+        if let Some(Ok(v)) = &m.value {
+            if !m.ambiguous && !render_matches(&v.render(), val) {
+                return Err(("value-of-sentence", format!("the model evaluates the derivation to `{}`", v.render())));
+            }
+        }
+    }
+    Ok((w.spans.len(), covered))
 }
